@@ -500,3 +500,107 @@ func init() {
 		},
 	})
 }
+
+// ---- C02: a reader that started behind a waiting writer must not overtake it ----
+
+const (
+	cW2Ret = 20 + iota // the (uncancelled) writer's Lock returned
+	cLateParked        // the late reader observed the writer parked when it started
+)
+
+// lateReader: Lock(read) issued while a writer is parked; on acquire that writer must have returned.
+func lateReader(m *csync.RWMutex, g *vsched.Gate) {
+	g.Wait()
+	wasParked := vsched.CountParked(lRW) > 0
+	label(lRR)
+	rel, err := m.Lock(context.Background(), false)
+	label("")
+	if err != nil {
+		fail("C02.lock-error", "Lock(bg,read) failed: %v", err)
+		return
+	}
+	acquired(false)
+	if wasParked && vsched.Ctr(cW2Ret) == 0 {
+		fail("C02.reader-overtook-writer", "a read Lock issued while a writer was waiting was granted before that writer acquired or gave up")
+	}
+	vsched.Point()
+	releasing(false)
+	rel()
+}
+
+// steadyWriter: an uncancelled writer; records when its Lock returned.
+func steadyWriter(m *csync.RWMutex) {
+	label(lRW)
+	rel, err := m.Lock(context.Background(), true)
+	label("")
+	vsched.CtrSet(cW2Ret, 1)
+	if err != nil {
+		fail("C02.lock-error", "Lock(bg,write) failed: %v", err)
+		return
+	}
+	acquired(true)
+	vsched.Point()
+	releasing(true)
+	rel()
+}
+
+func init() {
+	bg := context.Background()
+	eng.Register(&eng.Scenario{
+		Name: "csync-L5", Props: []string{"C02", "C01"}, MustFinish: true, ObsNames: stdObs,
+		Doc:   "RWMutex: reader R1 holds behind a gate, writer W (never cancelled) waits, reader R2 is issued once W is parked; then R1 releases so that W and R2 are woken together: R2 may not be granted before W",
+		Quick: eng.Bounds{PB: 2}, Thorough: eng.Bounds{PB: 4},
+		Body: func() {
+			var m csync.RWMutex
+			g1, g2, gF := &vsched.Gate{}, &vsched.Gate{}, &vsched.Gate{}
+			phases(gates(g2), gates(g1), gates(gF))
+			rel, _ := m.Lock(bg, false)
+			acquired(false)
+			T("R1", func() { g1.Wait(); releasing(false); rel() })
+			T("W", func() { steadyWriter(&m) })
+			T("R2", func() { lateReader(&m, g2) })
+			gF.Wait()
+			finalProbeRW(&m)
+		},
+	})
+	eng.Register(&eng.Scenario{
+		Name: "csync-L6", Props: []string{"C02", "C01"}, MustFinish: true, ObsNames: stdObs,
+		Doc:   "RWMutex: two readers hold behind gates, writer W waits, reader R2 is issued once W is parked; the first holder releases (an unrelated wake-up: W still cannot be granted), later the second: R2 may not be granted before W",
+		Quick: eng.Bounds{PB: 2}, Thorough: eng.Bounds{PB: 3},
+		Body: func() {
+			var m csync.RWMutex
+			ga, gb, g2, gF := &vsched.Gate{}, &vsched.Gate{}, &vsched.Gate{}, &vsched.Gate{}
+			phases(gates(g2), gates(ga), gates(gb), gates(gF))
+			relA, _ := m.Lock(bg, false)
+			acquired(false)
+			relB, _ := m.Lock(bg, false)
+			acquired(false)
+			T("Ra", func() { ga.Wait(); releasing(false); relA() })
+			T("Rb", func() { gb.Wait(); releasing(false); relB() })
+			T("W", func() { steadyWriter(&m) })
+			T("R2", func() { lateReader(&m, g2) })
+			gF.Wait()
+			finalProbeRW(&m)
+		},
+	})
+	eng.Register(&eng.Scenario{
+		Name: "csync-L7", Props: []string{"C02", "C01"}, MustFinish: true, ObsNames: stdObs,
+		Doc:   "RWMutex: reader holds behind a gate, writer W (never cancelled) and a cancellable writer WC wait, reader R2 is issued once both are parked; WC is cancelled (an unrelated wake-up): R2 may not be granted before W",
+		Quick: eng.Bounds{PB: 2}, Thorough: eng.Bounds{PB: 3},
+		Body: func() {
+			var m csync.RWMutex
+			ctx, cancel := context.WithCancel(bg)
+			g1, g2, gC, gF := &vsched.Gate{}, &vsched.Gate{}, &vsched.Gate{}, &vsched.Gate{}
+			phases(gates(g2), gates(gC), gates(g1), gates(gF))
+			rel, _ := m.Lock(bg, false)
+			acquired(false)
+			T("R1", func() { g1.Wait(); releasing(false); rel() })
+			T("W", func() { steadyWriter(&m) })
+			T("WC", func() { useRW(&m, ctx, true, true) })
+			T("R2", func() { lateReader(&m, g2) })
+			T("C", func() { gC.Wait(); cancel() })
+			gF.Wait()
+			finalProbeRW(&m)
+		},
+	})
+}
